@@ -591,6 +591,11 @@ class Interp:
             finally:
                 self.loops.pop()
             self.emit("endloop", ("while", t), st)
+            if self.fork_while:
+                # left normally after the unrolled iterations: the test is false now (a flag the body computed, `while more:`)
+                t_end = self._ev(st.test)
+                if simplify(t_end)[0] != "c":
+                    self.assume_test(t_end, False)
             return
         if isinstance(st, ast.Try):
             self._try(st)
@@ -858,12 +863,30 @@ class Interp:
             return False
         return self.decide(s)
 
+    def assume_test(self, t: Sym, want: bool) -> None:
+        """record, without forking, the decisions under which the test `t` has the value `want` - used where the model only follows
+        the executions for which it has (a loop left after the iterations that were unrolled): tried with every undecided atom
+        false, then true; left alone when neither gives `want`"""
+        for forced in (False, True):
+            before = dict(self.decided)
+            self._force = forced
+            try:
+                got = self.truth_sym(t)
+            finally:
+                self._force = None
+            if got == want:
+                return
+            self.decided = before
+
     def decide(self, atom: Sym) -> bool:
         if atom in self.decided:
             return self.decided[atom]
         imp = self._implied(atom)
         if imp is not None:
             return imp
+        if getattr(self, "_force", None) is not None:
+            self.decided[atom] = self._force
+            return self._force
         if self.pos < len(self.choices):
             v = self.choices[self.pos]
         else:
